@@ -220,7 +220,8 @@ def rows():
     # ------------------------------------------------------------------ settings
     for fault, kw in (("window_nonpositive", dict(window_length=0)), ("window_negative", dict(window_length=-2)),
                       ("window_noninteger", dict(window_length=2.5)), ("window_larger_than_series", dict(window_length=500)),
-                      ("sp_nonpositive", dict(sp=0)), ("sp_noninteger", dict(sp=1.5)), ("unknown_strategy", dict(strategy="best"))):
+                      ("sp_nonpositive", dict(sp=0)), ("sp_noninteger", dict(sp=1.5)), ("sp_wrongtype", dict(sp=[4])),
+                      ("unknown_strategy", dict(strategy="best"))):
         def faulty_s(c, kw=kw):
             f = NaiveForecaster(**dict(dict(strategy="mean"), **kw))
             return lambda: (f.fit(c["y"]), f)
@@ -239,7 +240,7 @@ def rows():
         f = NaiveForecaster(strategy="last", sp=c["n"] - 1)
         return lambda: (f.fit(c["y"]), f)
     add("naive.fit", "seasonal_window_larger_than_series", faulty_spw, control_spw)
-    for fault, kw in (("sp_nonpositive", dict(sp=0)), ("sp_noninteger", dict(sp=2.5))):
+    for fault, kw in (("sp_nonpositive", dict(sp=0)), ("sp_noninteger", dict(sp=2.5)), ("sp_wrongtype", dict(sp=[4]))):
         def faulty_t(c, kw=kw):
             f = ThetaForecaster(**kw)
             return lambda: (f.fit(c["y"]), f)
@@ -271,6 +272,7 @@ def rows():
     for sname, mk in spl.items():
         wl = "window_length" if sname == "sliding" else "initial_window"
         for fault, kw in (("window_nonpositive", {wl: 0}), ("window_noninteger", {wl: 2.5}), ("window_larger_than_series", {wl: 300}),
+                          ("window_larger_than_series_not_starting_with_window", {wl: 300, "start_with_window": False}),
                           ("step_nonpositive", {"step_length": 0}), ("step_noninteger", {"step_length": 1.5}),
                           ("duplicate_horizon", {"fh": [1, 1]}), ("empty_horizon", {"fh": []}),
                           ("fractional_horizon", {"fh": [1.5]}), ("wrongtype_horizon", {"fh": "x"})):
@@ -386,6 +388,14 @@ def rows():
             f = TransformedTargetForecaster([("d", Detrender()), ("f", N())])
             return lambda: (f.fit(c["y"], fh=[1]), f)
         add("pipeline.fit", fault, faulty_p, control_pp)
+
+        # the same ill-formed steps given to an object that was well-formed, and fitted, before
+        def faulty_p2(c, steps=steps):
+            f = TransformedTargetForecaster([("d", Detrender()), ("f", N())])
+            f.fit(c["y"], fh=[1])
+            f.set_params(steps=steps())
+            return lambda: (f.fit(c["y"], fh=[1]), f)
+        add("pipeline.fit", fault + "_after_valid_fit", faulty_p2, control_pp)
 
     def faulty_sel(c):
         f = MultiplexForecaster([("a", N()), ("b", P())], selected_forecaster="zzz")
